@@ -1090,7 +1090,17 @@ pub fn run(cx: &mut Ctx) {
     let n_m = if cx.thorough { 1500 } else { 60 };
     for it in 0..n_m {
         let k = 2 + (it % 4);
-        let pp = gen_probs(&mut cx.r, k);
+        let mut pp = gen_probs(&mut cx.r, k);
+        if it % 5 == 3 {
+            // weights that ALMOST sum to one (typed to a few decimals): normalisation must not depend on a tolerance test
+            let s: f64 = pp.iter().sum();
+            let off = *cx.r.pick(&[1e-5, -1e-5, 9e-5, -9e-5, 1e-4, 1.1e-4, 1e-3, -1e-3, 1e-9]);
+            if s > 0.0 {
+                for v in pp.iter_mut() {
+                    *v = *v / s * (1.0 + off);
+                }
+            }
+        }
         let n = if it < 2 * (nmax as usize + 1) { (it / 2) as u64 % (nmax + 1) } else { cx.r.below(nmax + 1) };
         let p = Par::Mult(pp.clone(), n);
         cx.evals += 1;
